@@ -10,7 +10,7 @@ slot() {
   for id in $list; do
     if [ $((i % N)) = $k ]; then
       prop=${id%%-*}
-      extra=$(grep "^$id " seeded/extra.txt 2>/dev/null | cut -d' ' -f2-)
+      extra=""; [ -n "${WITH_EXTRA:-}" ] && extra=$(grep "^$id " seeded/extra.txt 2>/dev/null | cut -d" " -f2-)
       SEED_TARGET=/tmp/seedtest-target-$$-$k ./seedtest seeded/$id $prop $extra 2>&1 | tail -1
     fi
     i=$((i+1))
